@@ -1408,7 +1408,9 @@ impl KotoVm {
                             }
                         }
                         Some(KIteratorOutput::Error(error)) => {
-                            return runtime_error!(error.to_string());
+                            // Propagate the error as it is, so that a value thrown in a generator
+                            // reaches a catch block in the calling code unchanged.
+                            return Err(error);
                         }
                         None => None,
                     }
